@@ -72,14 +72,15 @@ def run_cmd(backend, cred, fn, *, concurrent=2, cache=None, unlock=True):
     return res, c.out.getvalue()
 
 
-def add_key(backend, cred, *, new_password, shared, settings=None, concurrent=2, return_printed=False):
+def add_key(backend, cred, *, new_password, shared, settings=None, concurrent=2, return_printed=False, key_output_path=None):
     import copy
 
     async def main():
         repo = repository(backend, concurrent)
         if shared:
             await repo.unlock(password=cred.password, key=cred.key)
-        return await repo.add_key(password=new_password, settings=copy.deepcopy(settings), shared=shared)
+        extra = {} if key_output_path is None else {'key_output_path': key_output_path}
+        return await repo.add_key(password=new_password, settings=copy.deepcopy(settings), shared=shared, **extra)
     with capture() as c:
         res = asyncio.run(main())
     if return_printed:
